@@ -18,6 +18,7 @@ import Verif.Lemmas.MptRound
 import Verif.Lemmas.MergeRound
 import Verif.Lemmas.OrderChanges
 import Verif.Lemmas.TrieRun
+import Verif.Lemmas.Interp
 import Verif.Lemmas.RefKeyInj
 namespace Verif.Props.C04
 open Verif.Mpt Verif.MptStore Verif.MptStore.Collector
@@ -244,6 +245,47 @@ theorem C04_complete_run (H : Bytes → Bytes) (U : Ref → Prop) (Vok : Nat →
     · exact hUt' r hr
     · exact hE r hr
   rw [hU a b (hin a ha) (hin b hb) hk]
+
+/-- **Saved state is complete — every history of the interpreter.**  `Forest.step` (Verif.Model.MptInterp) is the
+    interpreter of the trie-building ops of the store-layer op language (child / ins / del / merge [raw] [keep] /
+    discard / ver), through which the model driver replays every generated history next to the Go code.  For ANY op
+    list executed from a freshly opened block trie on a canonical, resolvable tree, saving the block trie makes its
+    tree resolve in the persistent store (`interp_is_trieRun`: every reachable trie has a `TrieRun` history).
+    Side conditions (`RunIn`): the references of the executed operations stay inside `U`, on which the key is injective;
+    versions satisfy `Vok` (any predicate); no replayed ordering is stuck; the hash is never empty. -/
+theorem C04_complete_interp (H : Bytes → Bytes) (ord : List (Change Ref) → List (Change Ref)) (hord : ∀ l, (ord l).Perm l)
+    (U : Ref → Prop) (Vok : Nat → Prop) (hU : KeyInjOn H U) (hne : ∀ x, H x ≠ []) (P0 : PStore) (t0 : Node) (v : Nat)
+    (hw : WF t0) (hu : ∀ r ∈ refs t0 [], U r) (h0 : Resolves H (Map.get P0.nodes) t0 []) (ops : List TOp)
+    (hin : RunIn H ord U Vok { tries := [(0, 0, Trie.open (root H t0) t0 v)] } ops) (pid : Nat) (b : Trie)
+    (hb : (Forest.run H ord { tries := [(0, 0, Trie.open (root H t0) t0 v)] } ops).find 0 = some (pid, b)) :
+    Resolves H (Map.get (P0.applyAll (saveStream H b)).nodes) b.tree [] := by
+  obtain ⟨es, v0, h1, _, hrun, _⟩ := block_is_trieRun H ord hord U Vok hU hne t0 v hw hu ops hin pid b hb
+  have := C04_complete_run H U Vok P0 t0 b.tree (Trie.open (root H t0) t0 v0) es ⟨rfl, rfl⟩ h0 hw hu hrun hU
+  rw [save_nodes] at this ⊢
+  rw [h1]; exact this
+
+/-- an injective hash that never returns the empty string, for the non-vacuity example below -/
+def exH : Bytes → Bytes := fun x => 0 :: x
+
+/-- non-vacuity of `C04_complete_interp`: open a child, insert a key, merge it, on the empty block trie -/
+example : ∃ pid b, (Forest.run exH (fun l => l) { tries := [(0, 0, Trie.open (root exH .empty) .empty 1)] }
+      [.child 1 0, .ins 1 [3] [65], .merge 1 false]).find 0 = some (pid, b) ∧
+    Resolves exH (Map.get (({} : PStore).applyAll (saveStream exH b)).nodes) b.tree [] := by
+  refine ⟨_, _, rfl, ?_⟩
+  apply C04_complete_interp exH (fun l => l) (fun l => List.Perm.refl l)
+    (fun r => r = ⟨[], .leaf 1 [3] [65]⟩) (fun _ => True) _ _ {} .empty 1 (Or.inl rfl) (by intro r h; simp [refs] at h)
+    (by intro r h; simp [refs] at h) [.child 1 0, .ins 1 [3] [65], .merge 1 false] _ _ _ rfl
+  · intro a b ha hb _; rw [ha, hb]
+  · intro x; simp [exH]
+  · refine ⟨trivial, ?_, ?_, trivial⟩
+    · intro pid t hf
+      simp [Forest.step, Forest.find, Trie.open] at hf
+      obtain ⟨_, rfl⟩ := hf
+      simp [insertE, eventRefs]
+    · intro pid c hf
+      simp [Forest.step, Forest.find, Forest.set, Trie.open] at hf
+      obtain ⟨_, rfl⟩ := hf
+      decide
 
 /-- non-vacuity of `C04_complete_run` (and `TrieRun`): the block trie merges one transaction that inserted a key -/
 example : ∃ es, TrieRun id (fun r => r = ⟨[], .leaf 1 [3] [65]⟩) (fun v => v = 1) .empty es (.leaf 1 [3] [65]) ∧
